@@ -113,9 +113,7 @@ def main():
     n = 0
     acc = 0
     for r in pmap(compose_task, [dict(seed=rep.seed * 1000 + i, n=150 if quick else 1500) for i in range(16)], limit=600):
-        for v in r.get('violations', []):
-            rep.violation(v)
-        rep.harness_errors += r.get('harness_errors', [])
+        rep.absorb(r)
         n += r.get('n', 0)
         acc += r.get('accepted', 0)
     rep.counts['evaluations'] += n
